@@ -358,6 +358,50 @@ def property_fails(r):
     return why
 
 
+def real_fork_runs(rng, n, V):
+    """Leaf visits and transforms on real processes (OS scheduler), judged by the predicate."""
+    import os
+    import corr_C13
+    from toasty import transform
+    from toasty.pyramid import generate_pos
+    done = 0
+    for k in range(n):
+        d = common.workdir() / f"c03fork{k}"
+        d.mkdir(exist_ok=True)
+        logf = str(d / "items.log")
+
+        def note(tag, logf=logf):
+            fd = os.open(logf, os.O_WRONLY | os.O_APPEND | os.O_CREAT)
+            os.write(fd, (tag + f" {os.getpid()}\n").encode())
+            os.close(fd)
+
+        sink = io.StringIO()
+        if k % 2 == 0:
+            kind = rng.choice((0, 1, 2))
+            depth = rng.choice((1, 2, 3))
+            table = tuple(corr_C13.gen_table(rng, depth, 0.8)) if kind == 2 else ()
+            want = sorted(corr_C13.observe(kind, depth, table, (0, 0, 0), False)["visit"])
+            with contextlib.redirect_stdout(sink):
+                corr_C13.build_pyramid(kind, depth, table, (0, 0, 0), False).visit_leaves(
+                    lambda pos, tile: note(f"{pos.n} {pos.x} {pos.y}"), parallel=rng.choice((2, 3)))
+            what = dict(stage="visit_leaves", kind=kind, depth=depth)
+        else:
+            depth = rng.choice((1, 2))
+            want = sorted(tuple(p) for p in generate_pos(depth))
+            with contextlib.redirect_stdout(sink):
+                transform._do_a_transform(None, depth, lambda: None,
+                                          lambda buf, pos, a, b: note(f"{pos.n} {pos.x} {pos.y}"), parallel=rng.choice((2, 3)))
+            what = dict(stage="transform", depth=depth)
+        got = []
+        if os.path.exists(logf):
+            got = sorted(tuple(int(x) for x in line.split()[:3]) for line in open(logf))
+        if got != want:
+            V.disagreement("C03 predicate on a real multi-process run", what, f"{len(want)} items each once",
+                           f"{len(got)} items processed", True)
+        done += 1
+    return done
+
+
 def run(ctx, V):
     rng = common.rng_for(ctx["seed"], "C03")
     quick = ctx["tier"] == "quick"
@@ -410,7 +454,8 @@ def run(ctx, V):
                            dict(outcome=r["outcome"], started=r["started"][:20], exits=r["exits"], why=why), bool(why))
     samples = [dict(desc=r["desc"], par=r["par"], pcap=r["pcap"], mode=r["mode"], steps=len(r["trace"]),
                     first_actions=[list(ch) for _e, ch in r["trace"][:10]]) for r in results[:3]]
-    return dict(evaluations=len(results), distinct_nontrivial=len(nontrivial),
+    n_fork = real_fork_runs(rng, 4 if quick else 24, V)
+    return dict(evaluations=len(results) + n_fork, distinct_nontrivial=len(nontrivial), real_fork_runs=n_fork,
                 traces_validated_against_impl=len(terms),
                 scheduler_steps=sum(len(r["trace"]) for r in results),
                 rule="each case: one of the four real stages with random item set (pyramid kind/depth/filter/apex or input "
